@@ -2535,4 +2535,40 @@ theorem openai_finish_agree_FF (v : Variant) (hv : v.toolsStream = false) (hi : 
       simp [oaChatOnce, chunkInfo, hl, this, nonEmpty?, sToolCalls, hr]
     · simp [oaChatOnce, chunkInfo, hl, nonEmpty?, hr]
 
+/-! ## Round 7: progress replies (pull / push / create): non-streamed = the first terminal item of the stream -/
+
+/-- **`stream:false` on a progress endpoint answers with the first terminal item of what `stream:true`
+    would have written** (the `success` message, or the first error), and with a 500 when there is none —
+    for every item list. -/
+theorem progress_once_is_first_terminal (items : List PItem) :
+    waitForStreamM items = match items.find? PItem.terminal with
+      | some t => t.reply
+      | none => .error 500 sUnexpectedEnd := by
+  induction items with
+  | nil => rfl
+  | cons it rest ih =>
+    by_cases h : it.terminal = true
+    · simp [waitForStreamM, List.find?_cons, h]
+    · simp only [Bool.not_eq_true] at h
+      simp [waitForStreamM, List.find?_cons, h, ih]
+
+/-- a progress stream that ends with exactly one terminal item (what the producers do: they return after
+    `success` or after sending an error): the non-streamed request succeeds iff that item is `success`, and
+    fails with that item's status and text otherwise -/
+theorem progress_equiv (pre : List Bytes) (t : PItem) (hpre : ∀ s ∈ pre, s ≠ sSuccess) (ht : t.terminal = true) :
+    waitForStreamM (pre.map PItem.progress ++ [t]) = t.reply := by
+  induction pre with
+  | nil => simp [waitForStreamM, ht]
+  | cons s ss ih =>
+    have hs : (PItem.progress s).terminal = false := by
+      simp [PItem.terminal, hpre s (by simp)]
+    simp only [List.map_cons, List.cons_append, waitForStreamM, hs, Bool.false_eq_true, ↓reduceIte]
+    exact ih (fun x hx => hpre x (by simp [hx]))
+
+example : waitForStreamM [.progress sHi, .progress sSuccess, .err (some sBoom) none] = .success
+    ∧ waitForStreamM [.progress sHi, .err (some sBoom) (some 400), .progress sSuccess] = .error 400 sBoom
+    ∧ waitForStreamM [.err none none] = .error 500 sBadErrFormat
+    ∧ waitForStreamM [.progress sHi] = .error 500 sUnexpectedEnd
+    ∧ waitForStreamM [.other] = .error 500 sBadProgress := by decide
+
 end OllamaVerif.C17
